@@ -259,6 +259,8 @@ def run_replay(ctx, df, r, embs):
             if st is None:
                 st = cache[id(b)] = parse_state(b)
             exec_state(df, st, pool, embs[ei], part, scratch)
+            if ei == 0:
+                part.note("fired:" + str(st["prog"][-1][0]))
             part.trace()
         if items:
             st = parse_state(items[0][0])
@@ -275,9 +277,15 @@ from .. import c03_trace  # noqa: E402  (driver lives in harness/c03_trace.py)
 def run(ctx):
     df = core.import_library()
     embs = [embed.DYADIC[0], embed.REAL[1]] if ctx.tier == "quick" else [embed.DYADIC[0], embed.DYADIC[3], embed.REAL[1], embed.REAL[4]]
-    r = ctx.model("MC_C03", f"C03_{ctx.tier}.cfg", dump=True)
+    # TLC's -coverage cannot be used on the FieldAlg models (its cost model expands every operator at every call site and
+    # exhausts the heap before the first state); the per-action counts are taken from the dumped programs instead
+    r = ctx.model("MC_C03", f"C03_{ctx.tier}.cfg", dump=True, coverage=False)
     if r.ok:
         run_replay(ctx, df, r, embs)
+        fired = {k[6:]: v for k, v in ctx.notes.items() if k.startswith("fired:")}
+        if not fired:
+            raise core._tlc.MachineryError("no instruction of the model was replayed")
+        ctx.coverage_actions.update({f"MC_C03.{a}": n for a, n in fired.items()})
     c03_trace.run_traces(ctx, df, 400 if ctx.tier == "quick" else 6000)
     ctx.assumptions += [
         "TLC explores the bounded program space of spec/C03.tla completely (pool and bounds in MC_C03.tla)",
